@@ -4,13 +4,15 @@ READY = True
 SPEC = {
     "targets": ["Properties/C06.vo", "Run/C06.vo"],
     "theorems": {"Properties.C06": [
+        "C06_positions_spell_prefix",
         "C06_spell_guarded_partial", "C06_spell_plain", "C06_spell_single_quoted", "C06_spell_double_noescape",
         "C06_spell_literal", "C06_spell_folded_noblank", "C06_spell_plain_multiline", "C06_spell_flow_multiline",
         "C06_read_range_lands", "C06_positions_nonempty_inside", "C06_rule_lines_enclose", "C06_rule_lines_inside_file", "C06_lines_of_encloses",
         "C06_shift_equivariance", "C06_carets_exact", "C06_carets_single_range", "C06_caret_split_range_fixed", "C06_plain_end_to_end",
-        "C06_refuted_dq_escape", "C06_refuted_folded_blank", "C06_refuted_block_header", "C06_refuted_shallow_indent",
-        "C06_refuted_continued_trailing_space", "C06_refuted_block_leading_blank", "C06_refuted_multibyte_prefix", "C06_refuted_anchor_prefix",
-        "C06_full_statement_refuted", "C06_nonvacuous", "C06_nonvacuous_blocks"]},
+        "C06_refuted_dq_escape", "C06_full_statement_refuted",
+        "C06_folded_blank_fixed", "C06_block_header_fixed", "C06_shallow_indent_fixed", "C06_continued_trailing_space_fixed",
+        "C06_block_leading_blank_fixed", "C06_multibyte_prefix_fixed", "C06_anchor_prefix_fixed",
+        "C06_nonvacuous", "C06_nonvacuous_blocks"]},
     # quick: 200 printed documents (+100 synthetic line-table groups) through the correspondence and the oracle;
     # thorough: 4000 documents with correspondence + 40000 more through the oracle only
     "harness_args": lambda tier: ["C06", "--n", 200] if tier == "quick" else ["C06", "--n", 4000, "--extra", 40000],
@@ -19,9 +21,9 @@ SPEC = {
     "level": "proof",
     "trusted_base": [
         "Coq 8.16.1 kernel + VM (vm_compute: the _refuted witnesses, the non-vacuity examples, the correspondence evaluation); "
-        "no axioms (Print Assumptions of all 29 theorems: closed under the global context)",
+        "no axioms (Print Assumptions of all 30 theorems: closed under the global context)",
         "hand-written Gallina model Model/Position.v of internal/diags/position.go (NewPositionRange, appendPosition, countLeadingSpace, "
-        "readRange, AddOffset, Lines, Len) and of the lines accumulation of parseRule / YamlMap.Lines; tied to the current source on every run "
+        "byteColumn, skipBlanks, readRange, AddOffset, Lines, Len; Go's UTF-8 rune iteration is Model/CommentsUnicode.v decode_all) and of the lines accumulation of parseRule / YamlMap.Lines; tied to the current source on every run "
         "by differential execution only (no translator tables): the harness is compiled into the repo module and runs the REAL "
         "diags.NewPositionRange / readRange / PositionRanges.Lines on synthetic line tables and nodes (incl. out-of-range lines/columns, "
         "where the Go code panics and the model must say Crash) and on every yaml.v3 scalar node of generated documents, and the REAL parser "
@@ -40,36 +42,43 @@ SPEC = {
     "assumptions": [
         "line tables contain no '\\n' byte inside a line (true of ContentReader.lines by construction; premise of the block theorems for the "
         "lines after the scalar)",
-        "theorems are about byte columns: C06_spell_* assume sn_col is the byte column of the scalar token; yaml.v3 reports character "
-        "columns, which differ after non-ASCII text on the same line (known finding C06-multibyte-prefix)",
+        "the layout theorems C06_spell_* are stated for scalars preceded by ASCII text on their line (character column = byte column; "
+        "lemma byte_column_ascii); a non-ASCII prefix goes through the modelled byteColumn conversion, which is covered by the "
+        "correspondence, the oracle and the example C06_multibyte_prefix_fixed only; C06_positions_spell_prefix and "
+        "C06_spell_guarded_partial hold for any prefix",
         "oracle reading for YAML embedded in a block scalar: the line break of a blank (de-indented) outer line, or the \\r of a CRLF pair, "
         "counts as that line's break (documented in notes/C06.md)",
     ],
 }
 
 MANIFEST = {
-    "text": "Coq theorems (no axioms) about a byte-exact executable model of internal/diags/position.go: (1) for every line table and node "
-            "satisfying the executable guard node_ok (Appendix C g1-g5) NewPositionRange does not panic and its positions are non-empty, "
-            "inside the file and spell the value (induction over the greedy matcher: scan_line over bytes, npr_loop over lines); the layout "
-            "relations of plain, single-quoted, double-quoted with simple escapes, literal blocks (any chomping, comments, blank and "
-            "more-indented lines), folded blocks without blank lines and multi-line plain scalars are proved to imply the guard; "
-            "(2) read_range_lands: if positions spell the value, the ranges InjectDiagnostics computes for a diagnostic's [first,last] read "
-            "back exactly value[first-1:last]; (3) unconditionally positions are non-empty, well-formed, on lines >= the node's line and "
-            "inside the file; rule line ranges enclose all parts/fields and stay inside any bound on them; (4) shift-equivariance under "
-            "inserted lines / a common prefix; (5) the full statement is machine-refuted (vm_compute witnesses, same inputs in corpus/C06 "
-            "re-run on the real parser) for eight layout classes registered as known findings (an eighth, the caret rendering of split ranges, was repaired by fix e721538 and is now a full theorem), whose class predicates are implemented in "
-            "the harness and checked against the theorem guard by Coq on every run. Tie: differential execution of the real "
-            "NewPositionRange/readRange/Lines and of the real parser (all YamlNode.Pos, Rule.Lines, YamlMap.Lines) against the model; "
-            "oracle: a printing generator that knows where it put each value (all scalar styles, indentations, flow mappings, comments, "
-            "blank lines, nested/relaxed/embedded layouts, CRLF) compares read-back text and region, and every Diagnostic of the offline "
-            "checks with the substring it must cover.",
+    "text": "Coq theorems (no axioms) about a byte-exact executable model of internal/diags/position.go as of fix commits 660d1e1, "
+            "6c7f5de, 9af0d98, 69b377d, d1959ae: (0) UNCONDITIONALLY, for every line table, node (value, line, character column, block "
+            "style bit, anchor) and minColumn, a call that returns gives either the one-column fallback or positions that are well "
+            "formed, inside the file and read back, in order and up to line folding, a PREFIX of the value (C06_positions_spell_prefix; "
+            "induction over the greedy matcher: scan_line over bytes, npr_loop over lines with the lineBreak flag); (1) under the "
+            "executable completeness guard node_ok (every line's scan finds its segment; value not made of line breaks only) the call "
+            "does not panic and the positions are non-empty and spell the WHOLE value; the layout relations of plain, single-quoted, "
+            "double-quoted with simple escapes, literal blocks (any header line, any chomping, comments, blank and more-indented lines, "
+            "explicit indentation), folded blocks without blank lines, multi-line plain and multi-line quoted scalars are proved to imply "
+            "the guard; (2) read_range_lands: if positions spell the value, the ranges InjectDiagnostics computes for a diagnostic's "
+            "[first,last] read back exactly value[first-1:last]; carets of the rendered diagnostic sit exactly under those columns; "
+            "(3) unconditionally positions are non-empty, well-formed, on lines >= the node's line; rule line ranges enclose all "
+            "parts/fields and stay inside any bound on them; (4) shift-equivariance under inserted lines / a common ASCII prefix; (5) the "
+            "full statement is machine-refuted (vm_compute witness, same input in corpus/C06 re-run on the real parser) for ONE remaining "
+            "layout class registered as known finding (double-quoted scalars with an escape that hides the byte); the witnesses of the "
+            "seven classes repaired by the five fix commits are positive vm_compute statements now (C06_*_fixed) and regression inputs "
+            "of the oracle. Tie: differential execution of the real NewPositionRange/readRange/Lines and of the real parser (all "
+            "YamlNode.Pos, Rule.Lines, YamlMap.Lines) against the model; oracle: a printing generator that knows where it put each value "
+            "(all scalar styles, indentations incl. 1-column, flow mappings, comments also on block headers, blank lines inside folded and "
+            "multi-line scalars, trailing blanks, anchors, non-ASCII text, nested/relaxed/embedded layouts, CRLF) compares read-back text "
+            "and region, and every Diagnostic of the offline checks with the substring it must cover.",
     "note": "Trusted: Coq kernel+VM; hand model validated by differential execution on every run (no translator for this property); the "
-            "generator's knowledge of where it printed values; yaml.v3, PromQL parser, offline checks as inputs. Known findings (7 classes: "
-            "dq escapes, folded/multi-line blank lines, block header bytes, shallow indentation, trailing blanks on continued lines, block "
-            "values starting with a break, non-ASCII prefix) are genuine defects of the position heuristic kept in the tree; failures inside "
-            "those classes are counted, empty position lists / positions outside the file are never excused.",
-    "technique": "Coq proof by induction over the greedy matcher + vm_compute refutations + differential correspondence of the real "
-                 "functions and parser + printing-generator oracle",
+            "generator's knowledge of where it printed values; yaml.v3, PromQL parser, offline checks as inputs. Known finding (1 class: "
+            "dq escapes that hide the byte) is a genuine defect of the position heuristic kept in the tree; inside it the oracle still "
+            "requires non-empty positions inside the file that read back a prefix of the value and do not start in front of the scalar.",
+    "technique": "Coq proof by induction over the greedy matcher + vm_compute refutation/regressions + differential correspondence of the "
+                 "real functions and parser + printing-generator oracle",
 }
 
 
